@@ -433,6 +433,8 @@ STAT_FORMS = [
     "x = a .. b .. 1", "x = -y ^ -2", "x = not (a == b)", "x = #t + 1", "x = 1 .. 2", "x = t[ [[k]] ]",
     "x = a .. b .. c .. d .. e", "x = a ^ b ^ c ^ d ^ e", "x = a - b - c - d - e", "x = a .. b + c .. d * e .. f",
     "x = {f \";\", g ',', h '=', \"end\", k = '}', [\"]\"] = \")\"}", "f ';' g \",\" h '(' (i)\")\"",
+    "x = ((a + b) * (c + d)):m()", "s = ((a or b) .. f(x)):upper()", "((a + b) * (c + d)):m()", "y = ((a + b) * (c + d)).k[1]", "z = ((f or g)(1) .. (h)(2))()",
+    "w = (-(a + b)):m((c + d) * (e + f))", "v = (function() end)()", "u = ({(a)}):m()",
     "local n = arg", "block = stmt", "do local indent end", "newline = arg.block",
     "x = 'a\\z --b' .. \"\\z--[[c]]d\"", "s = \"a\\z   --[[b]]c\" y = 1",
 ]
@@ -2743,6 +2745,7 @@ def run_c04(ctx: fw.Ctx) -> None:
     perms = [list(p) for n in range(0, 4) for p in itertools.permutations(["sp1", "sp2", ""], n)]
     eval_resolve(ctx, st2, [dict(base, search=p) for p in perms], [None])
     st2.exhaustive = True
+    lookalike_stream(ctx)
     st_sys = ctx.stream("a require in every syntactic site, in the main file and in a required file")
     sys_trees = []
     for i, tmpl in enumerate(REQ_POSITIONS):
@@ -2829,6 +2832,28 @@ def first_use_order(tree: dict) -> list[str]:
     return [tree["main"]] + [p for p in tree["files"] if p != tree["main"]]
 
 
+def lookalike_stream(ctx: fw.Ctx) -> None:
+    st_like = ctx.stream("calls that only LOOK like require(<string>) - method calls on or fields of a value named require, require as a field or method name: untouched, nothing raised")
+    for like in ["require:get('m0')", "local m = require:load('m0')", "x.require('m0')", "x:require('m0')", "require.m('m0')", "local v = require.sub.f 'm0'",
+                 "require:get('nosuch')", "x.require('nosuch')", "y = x:require 'nosuch'", "require['m0']('m0')", "z = require:new('m0'):init('m0')"]:
+        for exists in (True, False):
+            for wrap in ["{S}", "do {S} end", "function g() {S} end"]:
+                src = "start()\n" + wrap.replace("{S}", like) + "\ntail()\n"
+                files = {"main.lua": src}
+                if exists:
+                    files["m0.lua"] = "in_m0()\n"
+                case = {"kind": "filetree", "files": files, "dirs": [], "main": "main.lua", "search": [""]}
+                st_like.record(case, key=json.dumps(case, sort_keys=True))
+                status, res = resolve_tree(case)
+                if status != "ok":
+                    st_like.fail(f"a program without any require(<string>) call does not resolve: {status} {res!r}"[:300], case)
+                    continue
+                s0, plain = tparse(src)
+                if s0 != "ok" or absast.abs_chunk(res) != absast.abs_chunk(plain):
+                    st_like.fail("a call that only looks like require() was rewritten", case)
+    st_like.exhaustive = True
+
+
 def run_c12(ctx: fw.Ctx) -> None:
     r = ctx.rng("c12")
     st = ctx.stream("every fault kind x syntactic site x file of generated dependency trees")
@@ -2904,25 +2929,7 @@ def run_c12(ctx: fw.Ctx) -> None:
                 elif res.token.line != text.count("\n", 0, text.index(call)) + 1:
                     st_ret.fail("InvalidDependencyError does not designate the offending call", dict(case, token_line=res.token.line))
     st_ret.exhaustive = True
-    st_like = ctx.stream("calls that only LOOK like require(<string>) - method calls on or fields of a value named require, require as a field or method name: untouched, nothing raised")
-    for like in ["require:get('m0')", "local m = require:load('m0')", "x.require('m0')", "x:require('m0')", "require.m('m0')", "local v = require.sub.f 'm0'",
-                 "require:get('nosuch')", "x.require('nosuch')", "y = x:require 'nosuch'", "require['m0']('m0')", "z = require:new('m0'):init('m0')"]:
-        for exists in (True, False):
-            for wrap in ["{S}", "do {S} end", "function g() {S} end"]:
-                src = "start()\n" + wrap.replace("{S}", like) + "\ntail()\n"
-                files = {"main.lua": src}
-                if exists:
-                    files["m0.lua"] = "in_m0()\n"
-                case = {"kind": "filetree", "files": files, "dirs": [], "main": "main.lua", "search": [""]}
-                st_like.record(case, key=json.dumps(case, sort_keys=True))
-                status, res = resolve_tree(case)
-                if status != "ok":
-                    st_like.fail(f"a program without any require(<string>) call does not resolve: {status} {res!r}"[:300], case)
-                    continue
-                s0, plain = tparse(src)
-                if s0 != "ok" or absast.abs_chunk(res) != absast.abs_chunk(plain):
-                    st_like.fail("a call that only looks like require() was rewritten", case)
-    st_like.exhaustive = True
+    lookalike_stream(ctx)
     st_rel = ctx.stream("a module that exists only next to the requiring file's *requirer* is not found (lookup starts at the file's own directory)")
     for variant in range(ctx.n(12, 120)):
         how = r.choice(["local m = require('lib.mod')", "f(require 'lib.mod')", "return require('lib.mod')", "require('lib.mod')",
